@@ -141,7 +141,7 @@ def run_check(pid, tier, seed, replay=None):
     fatal = None
     try:
         # 1. proof obligations
-        ok, log, dt = coqeval.coq_make()
+        ok, log, dt = coqeval.coq_make(target=f"props/{pid}.v")
         if not ok:
             ctx.obl = {"ok": False, "theorems": [], "log": log[-3000:]}
             ctx.violation("obligation:make", "coq development does not build: " + log[-800:],
